@@ -61,6 +61,14 @@ FIXED = [
  ("C17", "fix: the strings \"nan\", \"inf\" and \"infinity\" are not numbers", "{{ \"nan\" | ceil }} printed -9223372036854775808, {{ \"inf\" | plus: 1 }} printed +Inf instead of reporting a string that does not spell a number"),
  ("C18", "fix: an ordered map's own size key wins also when it is bound to nil", "yaml.MapSlice{{\"size\", nil}}.size gave 1 where a map with the same entry gives nil (also C08)"),
  ("C03", "fix: cycle only counts in the record of a real loop", "with a binding forloop = {'.cycles': map[string]int{}} a {% cycle %} outside any loop worked and wrote its position into that map: the caller's bindings changed and the position survived into the next render"),
+ ("C14", "fix: include accepts a name of a named string type", "{% include t %} with t of a named string type failed with 'include requires a string argument'"),
+ ("C14", "fix: a registered source is used whenever no such file exists, not only for ENOENT", "a source registered with ParseTemplateAndCache under a path that runs through a regular file (ENOTDIR) or is too long (ENAMETOOLONG) was ignored"),
+ ("C14", "fix: ParseTemplateAndCache keeps its own copy of the source", "the cache held on to the caller's slice: reusing the buffer changed what the registered path includes"),
+ ("C04", "fix: registering a template with ParseTemplateAndCache is safe while others parse and render", "ParseTemplateAndCache wrote, and include read, the source cache map without synchronisation: data race, 'fatal error: concurrent map writes'"),
+ ("C17", "fix: divided_by takes divisors of every integer and float type", "a divisor of a named numeric type, a uintptr or a json.Number was 'invalid divisor'; a uint64 above MaxInt64 wrapped negative"),
+ ("C09", "fix: a string does not contain nil", "{% if 'a<nil>b' contains nothing %} was true: the nil needle was spelled '<nil>'"),
+ ("C10", "fix: ordered maps compare the same way under ==, case/when and contains", "case/when, array contains and uniq compared yaml.MapSlice entries as Go structs ({a: 1} vs {a: int64(1)} differed although == said equal); [] == MapSlice{} was true from the left only (also C09)"),
+ ("C17", "fix: a value of a named string type that spells a number is a number for the numeric filters", "{{ t | plus: 1 }} with t = Title(\"2.5\") failed with a conversion error"),
 ]
 KNOWN = [
  # (property, key, what)
